@@ -207,6 +207,44 @@ pub(crate) fn serve_block_filters_upto(bc: &BodyChain, start: u64, end: u64) -> 
         .build()
 }
 
+/// the abstract store of Model/Crash.v read from the database: scripts, progress, pending records, indexed blocks
+fn abstract_state(storage: &Storage, pool: &[packed::Script], number_of: &dyn Fn(&packed::Byte32) -> Option<u64>) -> Val {
+    use rocksdb::{ops::Iterate, IteratorMode};
+    let scripts: Vec<Val> = storage.get_filter_scripts().iter().map(|ss| {
+        let sid = pool.iter().position(|s| s == &ss.script).unwrap_or(99) as u64;
+        Val::l(vec![Val::n(sid * 2 + if ss.script_type == ScriptType::Lock { 0 } else { 1 }), Val::n(ss.block_number)])
+    }).collect();
+    let mut records: Vec<(u64, u64, Vec<u64>)> = Vec::new();
+    let mut indexed: Vec<u64> = Vec::new();
+    for (k, val) in storage.db.iterator(IteratorMode::Start) {
+        if k[0] == 224 && k[1..].starts_with(b"MATCHED_BLOCKS") && k.len() == 1 + 14 + 8 {
+            let start = u64::from_be_bytes(k[15..].try_into().unwrap());
+            let count = u64::from_le_bytes(val[0..8].try_into().unwrap());
+            let mut ms: Vec<u64> = val[8..].chunks(33).map(|c| number_of(&packed::Byte32::from_slice(&c[..32]).unwrap()).unwrap_or(999_999)).collect();
+            ms.sort();
+            records.push((start, count, ms));
+        }
+        if k[0] == 192 && k.len() == 9 { let n = u64::from_be_bytes(k[1..9].try_into().unwrap()); if n >= 1 { indexed.push(n); } }
+    }
+    records.sort();
+    indexed.sort();
+    Val::l(vec![Val::l(scripts), Val::n(storage.get_min_filtered_block_number()),
+        Val::l(records.into_iter().map(|(s, c, ms)| Val::l(vec![Val::n(s), Val::n(c), Val::l(ms.into_iter().map(Val::n).collect())])).collect()),
+        Val::l(indexed.into_iter().map(Val::n).collect())])
+}
+
+fn state_term(v: &Val) -> String {
+    // (mkCS scripts min records indexed) from the printed observation
+    if let Val::L(parts) = v {
+        let pairs = |x: &Val| -> String { if let Val::L(l) = x { coq_list(&l.iter().map(|p| if let Val::L(q) = p { format!("({}, {})", num(&q[0]), num(&q[1])) } else { String::new() }).collect::<Vec<_>>()) } else { "[]".into() } };
+        let recs = if let Val::L(l) = &parts[2] { coq_list(&l.iter().map(|r| if let Val::L(q) = r { format!("({}, {}, {})", num(&q[0]), num(&q[1]), nums(&q[2])) } else { String::new() }).collect::<Vec<_>>()) } else { "[]".into() };
+        return format!("(mkCS {} {} {} {})", pairs(&parts[0]), num(&parts[1]), recs, nums(&parts[3]));
+    }
+    "(mkCS [] 0 [] [])".into()
+}
+fn num(v: &Val) -> String { if let Val::N(s) = v { s.clone() } else { "0".into() } }
+fn nums(v: &Val) -> String { if let Val::L(l) = v { coq_list(&l.iter().map(num).collect::<Vec<_>>()) } else { "[]".into() } }
+
 fn make_plan(rng: &mut Rng, seed: u64) -> Plan {
     let len = rng.range(26, 40);
     let fork_at = rng.range(len - 12, len - 5);
@@ -281,10 +319,72 @@ pub(crate) fn run(seed: u64, n: u64, out: &mut Out) {
         let mut w = build(&plan);
         let mut writes: Vec<u64> = Vec::new();
         let mut ok = true;
-        for op in &plan.ops {
+        let trace: std::rc::Rc<std::cell::RefCell<Vec<Val>>> = Default::default();
+        for (oi, op) in plan.ops.iter().enumerate() {
             let before = verif_hook::WRITES.with(|c| c.get());
-            if catch(|| w.exec(op)).is_none() { ok = false; break; }
+            // ---- correspondence with Model/Crash.v: the store as it is before every write of this operation ----
+            let modelled = matches!(op, Op::Filters { .. } | Op::Download | Op::SetScripts { .. }) && w.net.is_some();
+            let mut model_ws: Option<String> = None;
+            if modelled {
+                let number_of = |h: &packed::Byte32| -> Option<u64> { w.chain().chain.number_of(h) };
+                let st0 = abstract_state(&w.storage, &w.pool, &number_of);
+                let regs: Vec<(usize, bool, u64)> = w.storage.get_filter_scripts().iter().map(|ss| (w.pool.iter().position(|s| s == &ss.script).unwrap_or(99), ss.script_type == ScriptType::Lock, ss.block_number)).collect();
+                let touched = |n: u64| regs.iter().any(|(sid, is_lock, _)| *sid < w.pool.len() && w.chain().touches_role(n, &w.pool[*sid], *is_lock));
+                let ws = match op {
+                    Op::Filters { batch } => {
+                        let start = w.storage.get_min_filtered_block_number() + 1;
+                        let proven = w.net.as_ref().unwrap().peers.get_state(&w.peer).map(|s| s.get_prove_state().is_some()).unwrap_or(false);
+                        if start > w.height || regs.is_empty() || !proven { Some("[]".to_string()) } else {
+                            let end = (start + batch - 1).min(w.height);
+                            let count = end - start + 1;
+                            // a filter matches when the block touches (in any role) a script registered below the end of the batch
+                            let ms: Vec<u64> = (start..=end).filter(|n| regs.iter().any(|(sid, _, num)| *sid < w.pool.len() && *num < start + count && w.chain().touches(*n, &w.pool[*sid]))).collect();
+                            let mem_empty = w.net.as_ref().unwrap().peers.matched_blocks().read().map(|m| m.is_empty()).unwrap_or(true);
+                            Some(format!("(batch_writes {} {} {} {})", mem_empty, start, count, coq_list(&ms.iter().map(|x| format!("{}", x)).collect::<Vec<_>>())))
+                        }
+                    }
+                    Op::Download => {
+                        let recs = matched_records(w.net.as_ref().unwrap());
+                        let parts: Vec<String> = recs.iter().map(|(start, count, blocks)| {
+                            let mut ms: Vec<u64> = blocks.iter().filter_map(|(h, _)| w.chain().chain.number_of(h)).collect();
+                            ms.sort();
+                            format!("(complete_writes {} {} {})", start, count, coq_list(&ms.iter().map(|b| format!("({}, {})", b, touched(*b))).collect::<Vec<_>>()))
+                        }).collect();
+                        Some(if parts.is_empty() { "[]".to_string() } else { format!("({})", parts.join(" ++ ")) })
+                    }
+                    Op::SetScripts { cmd, list } => { if *cmd != 0 && list.is_empty() { Some("[]".to_string()) } else { Some("SET".to_string()) } }
+                    _ => None,
+                };
+                model_ws = ws.map(|x| format!("{}|{}", state_term(&st0), x));
+                trace.borrow_mut().clear();
+                let (tr, st, pool) = (trace.clone(), w.storage.clone(), w.pool.clone());
+                let chain_hashes: Vec<(packed::Byte32, u64)> = w.chain().chain.headers.iter().map(|h| (h.hash(), h.number())).collect();
+                verif_hook::ON_WRITE.with(|f| *f.borrow_mut() = Some(Box::new(move |_n| {
+                    let number_of = |h: &packed::Byte32| chain_hashes.iter().find(|x| &x.0 == h).map(|x| x.1);
+                    tr.borrow_mut().push(abstract_state(&st, &pool, &number_of));
+                })));
+            }
+            let r = catch(|| w.exec(op));
+            verif_hook::ON_WRITE.with(|f| *f.borrow_mut() = None);
+            if r.is_none() { ok = false; break; }
             writes.push(verif_hook::WRITES.with(|c| c.get()) - before);
+            if let Some(mw) = model_ws {
+                let number_of = |h: &packed::Byte32| -> Option<u64> { w.chain().chain.number_of(h) };
+                let after = abstract_state(&w.storage, &w.pool, &number_of);
+                let mut states: Vec<Val> = trace.borrow().clone();
+                states.push(after.clone());
+                let (st0, ws) = mw.split_once('|').unwrap();
+                let ws = if ws == "SET" {
+                    // set_scripts: everything it changes appears in one write; the genesis block is filtered afterwards when a script starts at 0
+                    if let (Val::L(a), Op::SetScripts { cmd, list }) = (&after, op) {
+                        let genesis = if *cmd == 0 { list.iter().any(|x| x.2 == 0) } else if *cmd == 1 { list.iter().map(|x| x.2).min() == Some(0) } else { false };
+                        let scripts = if let Val::L(l) = &a[0] { coq_list(&l.iter().map(|p| if let Val::L(q) = p { format!("({}, {})", num(&q[0]), num(&q[1])) } else { String::new() }).collect::<Vec<_>>()) } else { "[]".into() };
+                        format!("(set_scripts_writes {} (Some {}) {})", scripts, num(&a[1]), genesis)
+                    } else { "[]".to_string() }
+                } else { ws.to_string() };
+                out.case(&format!("writes-{}-{}", hist, oi), &["write-order", op.name()], &format!("(run_prefixes {} {})", st0, ws), &Val::l(states), Ok(()),
+                    &format!("history {}: the store before each of the {} writes of operation {} ({}) and after it", hist, writes[oi], oi, op.name()));
+            }
         }
         if !ok { out.case(&format!("crash-{}-ref", hist), &["crash-free"], "(VN 1)", &Val::n(1), Err(format!("[C10-handler-panic] the crash-free history itself panicked: {}", super::last_panic())), "reference run"); continue; }
         let conv = catch(|| w.converge());
